@@ -53,3 +53,266 @@ def c04_cases(tier, seed):
             continue
         big.append(ew_case(a, b, ops=("add", "mul", "div")))
     return cases + big
+
+
+# ---------------------------------------------------------------------------------------------
+# C16 construction, layout, indexing, equality
+def multi_indices(d):
+    import itertools
+    return [list(t) for t in itertools.product(*[range(x) for x in d])]
+
+
+def c16_cases(tier, seed):
+    rnd = random.Random(seed)
+    cases = []
+    for d in shapes(4, 3):
+        n = prod(d)
+        vals = [(k + 1) * (1 if k % 2 else -1) for k in range(n)]
+        steps = [RESET, leaf(1, d, vals), leaf(2, d, [0] * n, ctor="zeros")]
+        steps.append({"op": "eq", "args": [1, 2]})
+        for k, idx in enumerate(multi_indices(d)):
+            steps.append({"op": "index", "args": [1], "idx": idx})
+            steps.append({"op": "index", "args": [1], "flat": k})
+        cases.append(steps)
+        # refusals: a zero dimension, a wrong element count
+        for z in range(len(d)):
+            dz = list(d)
+            dz[z] = 0
+            cases.append([RESET, leaf(1, dz, [1] * prod(dz)), leaf(2, dz, [], ctor="zeros")])
+        cases.append([RESET, leaf(1, d, vals + [7]), leaf(2, d, vals[:-1])])
+    # flat vectors
+    for n in range(0, 8):
+        cases.append([RESET, leaf(1, [n], [F(k, 2) for k in range(n)], ctor="flat")])
+    # nested construction (arr! of arrays), moved or cloned, depth up to 4, ragged shapes refused
+    for d in shapes(3, 3):
+        for k in (1, 2, 3):
+            n = prod(d)
+            steps = [RESET]
+            for j in range(k):
+                steps.append(leaf(1 + j, d, [100 * j + i for i in range(n)], trk=(j == 1)))
+            mv = (k + len(d)) % 2 == 0
+            steps.append({"op": "nested", "args": list(range(1, k + 1)), "res": 10, "mv": mv})
+            steps.append({"op": "index", "args": [10], "idx": [k - 1] + [x - 1 for x in d]})
+            # nest once more (depth + 1) from clones of the result
+            steps.append({"op": "nested", "args": [10, 10], "res": 11, "mv": False})
+            steps.append({"op": "nested", "args": [11], "res": 12, "mv": True})
+            steps.append({"op": "index", "args": [12], "flat": 2 * k * n - 1})
+            if not mv:
+                # the operands keep their values and are still sole owners of their buffers
+                steps.append({"op": "into_vec", "args": [1]})
+            cases.append(steps)
+    for a in shapes(2, 3):
+        for b in shapes(2, 3):
+            if a != b:
+                cases.append([RESET, leaf(1, a, list(range(prod(a)))), leaf(2, b, list(range(prod(b)))),
+                              {"op": "nested", "args": [1, 2], "res": 3, "mv": False}])
+    # equality is dims + values, whatever the tracking state, graph or gradient
+    for d in shapes(3, 3):
+        n = prod(d)
+        vals = [k - 2 for k in range(n)]
+        steps = [RESET, leaf(1, d, vals), leaf(2, d, vals, trk=True),
+                 {"op": "eq", "args": [1, 2]},
+                 op("scale", [2], 3, c=sc(1)), {"op": "eq", "args": [1, 3]},
+                 backward(3), {"op": "eq", "args": [1, 2]}, {"op": "eq", "args": [3, 2]},
+                 op("neg", [2], 4), {"op": "eq", "args": [4, 2]},
+                 op("reshape", [1], 5, d=[n]), {"op": "eq", "args": [5, 1]},
+                 op("reshape", [1], 6, d=[1] + d), {"op": "eq", "args": [6, 1]},
+                 leaf(7, d, vals[:-1] + [99]), {"op": "eq", "args": [7, 1]},
+                 op("clone", [1], 8), {"op": "eq", "args": [8, 1]}]
+        cases.append(steps)
+    return cases
+
+
+# ---------------------------------------------------------------------------------------------
+# C07 reductions, reshape, point-wise functions (exact part)
+def factorizations(n, max_rank=4):
+    out = []
+
+    def rec(rem, pre):
+        if len(pre) >= 1 and rem == 1:
+            out.append(list(pre))
+        if len(pre) == max_rank:
+            return
+        for f in range(1, rem + 1):
+            if rem % f == 0:
+                if f == 1 and rem == 1 and len(pre) >= 1:
+                    rec(1, pre + [1]) if len(pre) + 1 <= max_rank and pre.count(1) < 2 else None
+                elif rem % f == 0:
+                    rec(rem // f, pre + [f])
+    rec(n, [])
+    uniq = []
+    for o in out:
+        if o not in uniq and len(o) <= max_rank:
+            uniq.append(o)
+    return uniq
+
+
+def c07_cases(tier, seed):
+    rnd = random.Random(seed)
+    cases = []
+    sh = shapes(4, 3)
+    for d in sh:
+        n = prod(d)
+        vals = [F((k % 7) - 3, 1 << (k % 3)) for k in range(n)]          # mixed signs, halves, quarters, zeros
+        pw = [(1 if k % 3 else -1) * F(2) ** ((k % 5) - 2) for k in range(n)]   # +-2^k
+        steps = [RESET, leaf(1, d, vals), leaf(2, d, pw), leaf(3, d, [k + 1 for k in range(n)])]
+        h = 10
+        for k in range(0, len(d) + 1):
+            steps.append(op("sum", [3], h, k=k)); h += 1
+            steps.append(op("sum", [1], h, k=k)); h += 1
+        steps.append({"op": "sum_all", "args": [1]})
+        steps.append({"op": "sum_all", "args": [3]})
+        steps.append(op("neg", [1], h)); h += 1
+        for c in (-2, F(1, 2), 3):
+            steps.append(op("scale", [1], h, c=sc(c))); h += 1
+        steps.append(op("scale_l", [1], h, c=sc(F(-3, 4)))); h += 1
+        steps.append(op("relu", [1], h)); h += 1
+        for p in (0, 1, 2, 3):
+            steps.append(op("powf", [1], h, p={"n": p})); h += 1
+        for p in (-1, -2, 4):
+            steps.append(op("powf", [2], h, p={"n": p})); h += 1
+        steps.append(op("recip", [2], h)); h += 1
+        cases.append(steps)
+        # reshape: every factorisation of the element count, and refusals
+        steps = [RESET, leaf(1, d, [k + 1 for k in range(n)])]
+        h = 10
+        targets = factorizations(n)
+        if tier != "thorough" and len(targets) > 12:
+            targets = rnd.sample(targets, 12)
+        for t in targets:
+            steps.append(op("reshape", [1], h, d=t)); h += 1
+        for t in ([n + 1], [n, 2], [max(1, n - 1)] if n > 1 else [2], d + [0], [0]):
+            steps.append(op("reshape", [1], h, d=t)); h += 1
+        cases.append(steps)
+    # beyond the bound: random larger shapes
+    nbig = 400 if tier == "thorough" else 60
+    for _ in range(nbig):
+        d = [rnd.randint(1, 6) for _ in range(rnd.randint(1, 4))]
+        n = prod(d)
+        if n > 400:
+            continue
+        steps = [RESET, leaf(1, d, [rnd.randint(-9, 9) for _ in range(n)])]
+        h = 10
+        for k in range(0, len(d) + 1):
+            steps.append(op("sum", [1], h, k=k)); h += 1
+        t = rnd.choice(factorizations(n))
+        steps.append(op("reshape", [1], h, d=t)); h += 1
+        steps.append(op("powf", [1], h, p={"n": 3})); h += 1
+        cases.append(steps)
+    return cases
+
+
+# ---------------------------------------------------------------------------------------------
+# C05 matrix multiplication
+LEADS = [[], [2], [1], [3], [2, 2], [1, 2], [2, 1]]
+
+
+def mm_case(da, ta, db, tb, dc=None, trk=(False, False, False), seed=None):
+    steps = [RESET,
+             leaf(1, da, [(k % 7) - 3 for k in range(prod(da))], trk=trk[0]),
+             leaf(2, db, [(k % 5) + 1 for k in range(prod(db))], trk=trk[1])]
+    args = [1, 2]
+    if dc is not None:
+        steps.append(leaf(3, dc, [10 * (k + 1) for k in range(prod(dc))], trk=trk[2]))
+        args.append(3)
+    steps.append(op("matmul", args, 4, ta=ta, tb=tb))
+    return steps
+
+
+def c05_space(sizes=(1, 2, 3)):
+    out = []
+    for r in sizes:
+        for k in sizes:
+            for c in sizes:
+                for ta in (False, True):
+                    for tb in (False, True):
+                        ma = [k, r] if ta else [r, k]
+                        mb = [c, k] if tb else [k, c]
+                        for la in LEADS:
+                            for lb in LEADS:
+                                for cf in range(7):
+                                    dc = [None, [c], [r, c], [1, c], [1], [c + 1], [r + 1, c]][cf]
+                                    out.append((la + ma, ta, lb + mb, tb, dc))
+    return out
+
+
+def c05_cases(tier, seed):
+    rnd = random.Random(seed)
+    space = c05_space()
+    pick = space if tier == "thorough" and False else rnd.sample(space, 12000 if tier == "thorough" else 1800)
+    cases = [mm_case(*p) for p in pick]
+    # inner-dimension mismatches must be refused
+    for r in (1, 2, 3):
+        for k in (1, 2, 3):
+            for c in (1, 2, 3):
+                for ta in (False, True):
+                    for tb in (False, True):
+                        ma = [k, r] if ta else [r, k]
+                        mb = [c, k + 1] if tb else [k + 1, c]
+                        la = rnd.choice(LEADS[:3])
+                        cases.append(mm_case(la + ma, ta, mb, tb))
+    # rank-1 forms: a one-row matrix next to a rank>=2 operand; dot product of two vectors
+    for k in (1, 2, 3):
+        for c in (1, 2, 3):
+            for lb in ([], [2], [2, 2]):
+                for tb in (False, True):
+                    cases.append(mm_case([k], False, lb + ([c, k] if tb else [k, c]), tb, rnd.choice([None, [c], [1]])))
+                    cases.append(mm_case(lb + [c, k], False, [k], True))        # [c,k] x column vector
+                    cases.append(mm_case(lb + [k, c], True, [k], True))
+                for ta in (False, True):
+                    for tb in (False, True):
+                        cases.append(mm_case([k], ta, lb + [c, k], tb))
+                        cases.append(mm_case(lb + [c, k], ta, [k], tb))
+        cases.append(mm_case([k], False, [k], False))
+        cases.append(mm_case([k], False, [k], False, [1]))
+    # beyond the bound: sizes up to 5
+    for _ in range(600 if tier == "thorough" else 80):
+        r, k, c = rnd.randint(1, 5), rnd.randint(1, 5), rnd.randint(1, 5)
+        ta, tb = rnd.random() < 0.5, rnd.random() < 0.5
+        la, lb = rnd.choice(LEADS), rnd.choice(LEADS)
+        dc = rnd.choice([None, [c], [r, c], [1, c], [1]])
+        cases.append(mm_case(la + ([k, r] if ta else [r, k]), ta, lb + ([c, k] if tb else [k, c]), tb, dc))
+    return cases
+
+
+# ---------------------------------------------------------------------------------------------
+# C06 convolution
+def conv_case(batch, depth, ir, ic, cnt, fr, fc, sr, sc_, fdepth=None, trk=(False, False)):
+    di = batch + [depth, ir, ic]
+    df = [cnt, depth if fdepth is None else fdepth, fr, fc]
+    return [RESET,
+            leaf(1, di, [(k % 11) - 5 for k in range(prod(di))], trk=trk[0]),
+            leaf(2, df, [(k % 4) + 1 if k % 3 else -(k % 3) - 1 for k in range(prod(df))], trk=trk[1]),
+            op("conv", [1, 2], 3, sr=sr, sc=sc_)]
+
+
+def c06_space():
+    out = []
+    for ir in range(1, 6):
+        for ic in range(1, 6):
+            for depth in (1, 2):
+                for cnt in (1, 2):
+                    for fr in range(1, min(3, ir) + 1):
+                        for fc in range(1, min(3, ic) + 1):
+                            for sr in (1, 2, 3):
+                                for sc_ in (1, 2, 3):
+                                    for batch in ([], [1], [2], [3], [2, 2]):
+                                        out.append((batch, depth, ir, ic, cnt, fr, fc, sr, sc_))
+    return out
+
+
+def c06_cases(tier, seed):
+    rnd = random.Random(seed)
+    space = c06_space()
+    pick = rnd.sample(space, 10000 if tier == "thorough" else 1500)
+    cases = [conv_case(*p) for p in pick]
+    for p in rnd.sample(space, 100):
+        cases.append(conv_case(*p, fdepth=p[1] + 1))      # depth mismatch: refused
+    for _ in range(300 if tier == "thorough" else 40):     # beyond the bound
+        ir, ic = rnd.randint(3, 8), rnd.randint(3, 8)
+        fr, fc = rnd.randint(1, 4), rnd.randint(1, 4)
+        if fr > ir or fc > ic:
+            continue
+        cases.append(conv_case(rnd.choice([[], [2], [4]]), rnd.randint(1, 3), ir, ic, rnd.randint(1, 3), fr, fc,
+                               rnd.randint(1, 4), rnd.randint(1, 4)))
+    return cases
